@@ -105,24 +105,45 @@ def check_constructor_states(ctx: Ctx):
 
 def check_no_hand_parsing(ctx: Ctx):
     """R17.8: the claim file and the output file are written with csv.writer, which quotes cells
-    containing the delimiter, quotes or line breaks (subject names are arbitrary); every reader of
-    these files must therefore be a csv.reader with the same dialect.  A session (continue an
-    existing file, evaluate, evaluate a duplicate) is run on the abstract file system and every
-    line-by-line read of a file is reported."""
+    containing the delimiter, quotes or line breaks - and subject names are arbitrary.  Whatever reads
+    these files back (a csv.reader, or a faster hand-written path behind a guard) must recover exactly
+    the names that were written.  A session is run on the abstract file system (whose raw text is the
+    real csv module's rendering of the rows): an existing file holds finished subjects with adversarial
+    names; submitting each of them again must be recognised as finished - no second row."""
     prog = ctx.prog
     ev = agg_class(prog).lookup("evaluate")
-    fs = FS({"/d/out.tsv": [header_row(), ["s0"] + ["0.5"] * (len(header_row()) - 1)]})
+    # printable names only (the properties quantify over printable subject names): the characters
+    # csv.writer reacts to among them are the quote character (cell gets quoted, quotes doubled)
+    names = ["plain", 's"q', '"', 'a""b', " lead", "x,y", "q'r", "trail "]
+    width = len(header_row()) - 1
+    rows0 = [header_row()] + [[nm] + ["0.5"] * width for nm in names]
+    fs = FS({"/d/out.tsv": [list(r) for r in rows0]})
+    fs.__dict__.setdefault("writer_opts", {})["/d/out.tsv"] = {"delimiter": "\t", "lineterminator": "\n"}
     agg, out, it = new_session(prog, fs, "/d/out.tsv")
     if agg is None:
-        ctx.undecided("R17.8", ev, ev.node, "hand-parsing:session", f"aggregator constructor not evaluable on an existing file: {out.kind} {out.exc}")
+        if out.kind == "raise" and not out.decisions:
+            ctx.violated("R17.8", ev, out.node, "adversarial-names:continue", "an existing file with finished subjects whose names contain quotes, tabs or line breaks is continued", {"outcome": out.kind, "exc": out.exc, "names": [repr(n) for n in names]})
+        else:
+            ctx.undecided("R17.8", ev, ev.node, "adversarial-names:session", f"aggregator constructor not evaluable on an existing file: {out.kind} {out.exc}")
         return
-    for s in ("s1", "s0", "s1"):
-        o, _ = evaluate_subject(prog, agg, fs, s, lock_objs=it.root.lock_objs)
-        if o.kind == "raise" and o.exc not in (None, "ValueError"):
-            break
+    bad = {}
+    for nm in names + ["fresh"]:
+        before = len(fs.files.get("/d/out.tsv", []))
+        o, _ = evaluate_subject(prog, agg, fs, nm, lock_objs=it.root.lock_objs)
+        after = len(fs.files.get("/d/out.tsv", []))
+        if o.decisions:
+            ctx.undecided("R17.8", ev, ev.node, f"adversarial-names:{nm!r}", "session not evaluable without splitting")
+            return
+        if nm == "fresh":
+            if after != before + 1 and o.kind != "raise":
+                bad[repr(nm)] = "a subject that was never evaluated gets no row"
+        elif after != before:
+            bad[repr(nm)] = f"finished subject evaluated again: {after - before} more row(s)"
+        elif o.kind == "raise" and o.exc not in (None, "ValueError"):
+            bad[repr(nm)] = f"resubmitting a finished subject raises {o.exc}"
     raw = fs.__dict__.get("raw_reads", [])
     sites = sorted({(q, getattr(n, "lineno", 0)) for _, n, q in raw})
-    ctx.decide("R17.8", ev, raw[0][1] if raw else ev.node, "hand-parsing:aggregator", "files written with csv.writer are read back only through csv.reader (quoted subject names are not recovered by splitting lines)", not raw, {"line_by_line_reads": [f"{q}:{ln}" for q, ln in sites]})
+    ctx.decide("R17.8", ev, raw[0][1] if raw else ev.node, "adversarial-names:aggregator", "finished subjects are recognised whatever characters their names contain (names quoted by csv.writer are recovered exactly when the file is read back)", not bad, {"not_recognised": bad, "line_by_line_reads": [f"{q}:{ln}" for q, ln in sites]} if bad else None)
 
 
 def check_header_rejection(ctx: Ctx):
